@@ -240,7 +240,7 @@ PROPS["C13"] = dict(
 )
 
 PROPS["C14"] = dict(
-    n_quick=480, n_thorough=40000, shards=16, coq_dirs=["C14"], no_shrink=True,
+    n_quick=480, n_thorough=40000, shards=16, coq_dirs=["C14"], no_shrink=True, confirm_runs=2,
     rule="cases, each in a child process under strace -f in a fresh directory (destination pre-seeded, absent, or a non-empty directory so "
          "that the rename fails): (50%) safe.WriteFileWithMode with 0-4 writer calls of sizes {0,1,10,4096,50000,65535,65536,65537,70000,"
          "131072,200000}, modes {644,600,755,666,400} under umask 022, the writer failing after k calls in a third of the cases; (30%) the "
